@@ -71,6 +71,7 @@ pub fn configs(tier: Tier) -> Vec<OutCfg> {
                     inbound,
                     may_close,
                     inbound_faults,
+                    cancel_inflight: false,
                 });
             }
         }
